@@ -145,6 +145,21 @@ def evaluate(cfg):
         else:
             o.raises("direct back-end must reject order %s" % (order,),
                      lambda: evaluate_deriv_basis(g, pts, oa, deriv_type="direct", **kw), key="direct-order>2-not-rejected")
+            if order in ((3, 0, 0), (0, 4, 1), (2, 1, 3)):
+                # the same request through the class behind the public function: rejected, or answered exactly
+                from gbasis.evals.eval_deriv import EvalDeriv
+
+                cts = [x.coord_type for x in g]
+                try:
+                    if T is None:
+                        got_c = EvalDeriv(g).construct_array_mix(cts, points=pts, orders=oa, deriv_type="direct")
+                    else:
+                        got_c = EvalDeriv(g).construct_array_lincomb(T, cts, points=pts, orders=oa, deriv_type="direct")
+                    o.call()
+                    o.cmp("EvalDeriv class route, direct, order %s: answered, so it must be exact" % (order,), got_c, v, TOL, m,
+                          key="direct-order>2-class-route")
+                except (ValueError, TypeError, NotImplementedError):
+                    o.call()
     # equivalent representations of the same points: Fortran-ordered copy, strided view, read-only array; and a
     # set of integer-valued points given with integer dtype
     reps = {"F-ordered": np.asfortranarray(pts), "strided view": np.repeat(pts, 2, axis=0)[::2],
